@@ -2279,5 +2279,5 @@ func init() {
 	vh.Enum("corpus", enumCorpus, judgeCorpus)
 	vh.Enum("definitions", enumDefs, judgeDef)
 	vh.Enum("fields", enumFields, judgeMutation)
-	vh.Rapid("mutations", 1200, 24000, genMutation, judgeMutation)
+	vh.Rapid("mutations", 2400, 96000, genMutation, judgeMutation)
 }
